@@ -553,6 +553,50 @@ theorem C01_months_redefinable_nonvacuous :
       (.macro "jan".toList) = "JaFebruary".toList := by
   decide +kernel
 
+/-- **Redefinition at the level of the READER** (`C01_months_redefinable` above is a law of the
+reference table alone).  (1) For every well-formed document and layout, in either mode, the entries
+the reader returns are the entry commands as written, each evaluated (`entryOf`: expansion,
+concatenation, normalisation) in the macro table in force where it stands (`entriesWith`).
+(2) That table, for every command after a `@string{n = v}`: the entries of `pre ++ @string{n = v} ::
+post` are those of `pre` followed by those of `post` evaluated from the table in which `n` has been
+set to the expansion of `v` in the table `T` reached after `pre` — so, by `C01_months_redefinable`,
+every later use of `n` in any letter case reads the new text (a month name included) and every other
+name reads what it read before, until a further `@string` changes it. -/
+theorem C01_months_redefinable_reader :
+    (∀ (d : ADoc) (L : Layout) (strict : Bool), WF d L →
+      (parseBib (render d L) strict none).1.db.entries =
+        (entriesWith initMacros (written d L)).map entryOf) ∧
+    (∀ (m : Macros) (pre post : ADoc) (n : Str) (v : Value),
+      entriesWith m (pre ++ .strdef n v :: post) =
+        entriesWith m pre ++
+          entriesWith (OMap.set (pre.foldl stepMacros m) n (expand (pre.foldl stepMacros m) v)) post) ∧
+    (∀ (T : Macros) (n k : Str) (v : Value),
+      expandPiece (OMap.set T n (expand T v)) (.macro k) =
+        if lower n = lower k then expand T v else expandPiece T (.macro k)) := by
+  refine ⟨C01_identifiers.1, ?_, fun T n k v => C01_months_redefinable T n k v⟩
+  intro m pre
+  induction pre generalizing m with
+  | nil => intro post n v; simp [entriesWith, stepMacros]
+  | cons c pre ih =>
+    intro post n v
+    cases c with
+    | entry ty key fs => simp [entriesWith, stepMacros, ih]
+    | strdef n' v' => simp [entriesWith, ih]
+    | preamble v' => simp [entriesWith, stepMacros, ih]
+    | comment t => simp [entriesWith, stepMacros, ih]
+    | junk t => simp [entriesWith, stepMacros, ih]
+
+/-- the document of `C01_months_redefinable_nonvacuous` as an abstract document: well formed, and its
+second entry stands behind the `@string` -/
+theorem C01_months_redefinable_reader_nonvacuous :
+    let d : ADoc := [.entry "a".toList "k1".toList [("month".toList, [.macro "jan".toList])],
+      .strdef "JAN".toList [.lit "Ja".toList, .macro "feb".toList],
+      .entry "a".toList "k2".toList [("month".toList, [.macro "Jan".toList, .lit "-".toList, .macro "jAN".toList])]]
+    WF d [] ∧
+    ((entriesWith initMacros (written d [])).map entryOf).map (·.fields) =
+      [[("month".toList, "January".toList)], [("month".toList, "JaFebruary-JaFebruary".toList)]] := by
+  decide +kernel
+
 
 /-! ### keys are matched up to `str.lower()`, the Unicode mapping -/
 
@@ -591,6 +635,27 @@ theorem C01_key_folding_nonvacuous :
 
 section SplitPoints
 open Pybtex.BibRT (ValEq FieldEq CmdEq DocEq splitDoc₁ splitDoc₂ splitLayout₁ splitLayout₂ splitLayout₃)
+
+/-- **What `ValEq` / `DocEq` hold of** (the hypothesis of the three theorems below is the SEMANTIC
+relation "same expansion under every macro table", so those theorems are short corollaries of
+`C01_faithful`; the content of "the split points do not matter" is in these rules).  Sufficient
+conditions: a literal may be cut anywhere; an empty literal may be inserted or dropped; any cutting
+of a literal text at once; macro names may differ in letter case; the relation is a congruence for
+`#` and an equivalence.  Necessary: a macro name is never exchangeable for a literal text (not even
+the text it currently stands for).  No complete syntactic characterisation (iff) is proved. -/
+theorem C01_split_point_rules :
+    (∀ (a b : Str) (r : Value), ValEq (.lit (a ++ b) :: r) (.lit a :: .lit b :: r)) ∧
+    (∀ r : Value, ValEq (.lit [] :: r) r) ∧
+    (∀ (ss : List Str) (r : Value), ValEq (ss.map Piece.lit ++ r) (.lit ss.flatten :: r)) ∧
+    (∀ (n n' : Str) (r : Value), lower n = lower n' → ValEq (.macro n :: r) (.macro n' :: r)) ∧
+    (∀ v v' w w' : Value, ValEq v v' → ValEq w w' → ValEq (v ++ w) (v' ++ w')) ∧
+    (∀ v : Value, ValEq v v) ∧ (∀ v w : Value, ValEq v w → ValEq w v) ∧
+    (∀ u v w : Value, ValEq u v → ValEq v w → ValEq u w) ∧
+    (∀ n s : Str, ¬ ValEq [.macro n] [.lit s]) := by
+  refine ⟨BibRT.valEq_lit_split, BibRT.valEq_lit_nil, BibRT.valEq_lits, ?_, fun _ _ _ _ => BibRT.ValEq.append,
+    BibRT.ValEq.refl, fun _ _ => BibRT.ValEq.symm, fun _ _ _ => BibRT.ValEq.trans, BibRT.not_valEq_macro_lit⟩
+  intro n n' r h m
+  simp only [BibRT.expand_cons, expandPiece, BibRT.omap_get_congr m h]
 
 /-- **Independence of the split points of a value.**  `ValEq v w` says that two values expand to the
 same text under every macro table, i.e. they consist of the same macro names in the same order with
